@@ -1,10 +1,10 @@
 SPECIFICATION Spec
 CONSTANTS
   Clients = {"c1", "c2", "c3"}
-  NB = 2
-  Prog <- P3
+  NB = 1
+  Prog <- PRR
   LockWrites = TRUE
   LockDeletes = TRUE
-  ReadRepair = FALSE
-INVARIANTS Linearizable MirrorAtQuiescence LockDiscipline
+  ReadRepair = TRUE
+INVARIANTS Linearizable
 CHECK_DEADLOCK FALSE
